@@ -594,7 +594,7 @@ fn json_item(it: &AItem) -> serde_json::Value {
 struct Stats {
     n: u64, ok: u64, dup: u64, orphan: u64, panic: u64, parse_fail: u64, parse_mismatch: u64,
     by_kind_def: [u64; 7], by_kind_ext: [u64; 7], dirdefs: u64, files: [u64; 5], ext_before_def: u64, cross_file_ext: u64,
-    multi_ext: u64, with_builtins: u64, pos_ties: u64, items_total: u64, err_elem: HashMap<String, u64>,
+    multi_ext: u64, with_builtins: u64, pos_ties: u64, builtin_ties: u64, items_total: u64, err_elem: HashMap<String, u64>,
 }
 
 fn main() {
@@ -602,11 +602,12 @@ fn main() {
     let args = parse_args();
     let mut rng = Rng::new(args.seed);
     let thorough = args.tier == "thorough";
-    let mut cases = Cases::new("From V Require Import Base.Util C11.Model C11.Spec C11.Corr.", "case", "agree", "holds", if thorough { 700 } else { 160 });
+    let mut cases = Cases::new("From V Require Import Base.Util C11.Model C11.Spec C11.Corr.", "case", "agree", "holds", if thorough { 800 } else { 300 });
     let mut distinct: HashSet<String> = HashSet::new();
     let mut st = Stats { n: 0, ok: 0, dup: 0, orphan: 0, panic: 0, parse_fail: 0, parse_mismatch: 0, by_kind_def: [0; 7], by_kind_ext: [0; 7],
-        dirdefs: 0, files: [0; 5], ext_before_def: 0, cross_file_ext: 0, multi_ext: 0, with_builtins: 0, pos_ties: 0, items_total: 0, err_elem: HashMap::new() };
+        dirdefs: 0, files: [0; 5], ext_before_def: 0, cross_file_ext: 0, multi_ext: 0, with_builtins: 0, pos_ties: 0, builtin_ties: 0, items_total: 0, err_elem: HashMap::new() };
     let mut direct_failures: Vec<serde_json::Value> = vec![];
+    let slim = thorough;   // thorough tier: replay descriptions keep the file texts and the verdict only
 
     // A plan + an assignment of its items to files -> one case.
     let mut run_case = |rng: &mut Rng, per_file: Vec<Vec<Proto>>, file_ids: Vec<usize>, builtins: bool, sparse: bool, origin: &str,
@@ -625,8 +626,8 @@ fn main() {
             builtin_items.extend(cli_builtins::nitrogql_builtins().iter().map(dump_in));
         }
         let files_json: Vec<_> = texts.iter().map(|(i, t)| json!({"file_index": i, "text": t})).collect();
-        let mut descr = json!({"origin": origin, "files": files_json, "builtins_appended": builtins,
-                               "items": flat.iter().map(json_item).collect::<Vec<_>>()});
+        let mut descr = json!({"origin": origin, "files": files_json, "builtins_appended": builtins});
+        if !slim { descr["items"] = json!(flat.iter().map(json_item).collect::<Vec<_>>()); }
         st.n += 1;
         if let Some(parsed) = &run.parsed_items {
             let want: Vec<AItem> = flat.iter().cloned().chain(builtin_items.iter().cloned()).collect();
@@ -647,7 +648,7 @@ fn main() {
         let result_term = match &run.outcome {
             Outcome::Ok(out) => {
                 st.ok += 1;
-                descr["result"] = json!({"ok": out.iter().map(json_item).collect::<Vec<_>>()});
+                descr["result"] = if slim { json!({"ok_items": out.len()}) } else { json!({"ok": out.iter().map(json_item).collect::<Vec<_>>()}) };
                 format!("(ROk {})", coq_list(out, |it| coq_item(it, &t)))
             }
             Outcome::Err { variant, elem, name, p1, p2, diag, message } => {
@@ -699,8 +700,9 @@ fn main() {
         if ext_count.values().any(|c| *c >= 2) { st.multi_ext += 1; }
         let mut lc: HashSet<(usize, usize, usize)> = HashSet::new();
         let mut tie = false;
-        for it in flat.iter().chain(builtin_items.iter()) { if it.tag == Tag::Def && !lc.insert((it.kind, it.pos.line, it.pos.col)) { tie = true; } }
+        for it in flat.iter() { if it.tag == Tag::Def && !lc.insert((it.kind, it.pos.line, it.pos.col)) { tie = true; } }
         if tie { st.pos_ties += 1; }
+        if builtins && flat.iter().any(|it| it.tag == Tag::Def && it.kind == 1 && it.pos.line == 0 && it.pos.col == 0) { st.builtin_ties += 1; }
         descr["shape"] = json!({"files": per_file.len(), "items": flat.len(), "extension_before_definition": ebd, "extension_in_other_file": cfe, "definition_position_tie": tie});
         distinct.insert(texts.iter().map(|(i, t)| format!("{}\u{1}{}", i, t)).collect::<Vec<_>>().join("\u{2}") + if builtins { "+b" } else { "" });
         cases.push(format!("Case {} {} {}", files_term, builtins_term, result_term), descr);
@@ -763,7 +765,7 @@ fn main() {
     let n_exhaustive = cases.len();
 
     // 2. random multisets of all kinds, shuffled, split across 1-4 files
-    let n_rand = if thorough { 40000 } else { 1500 };
+    let n_rand = if thorough { 50000 } else { 6000 };
     for _ in 0..n_rand {
         let builtins = rng.chance(1, 2);
         let mode = match rng.below(20) { 0..=10 => 0, 11..=13 => 1, 14..=16 => 2, 17 => 3, _ => 4 };
@@ -797,7 +799,8 @@ fn main() {
             "cases_with_extension_in_another_file_than_its_definition": st.cross_file_ext,
             "cases_with_two_or_more_extensions_of_one_definition": st.multi_ext,
             "cases_with_builtins_appended": st.with_builtins,
-            "cases_with_two_same_kind_definitions_at_equal_line_col": st.pos_ties,
+            "cases_with_two_rendered_same_kind_definitions_at_equal_line_col": st.pos_ties,
+            "cases_with_rendered_scalar_at_0_0_tying_with_builtin_scalars": st.builtin_ties,
             "mean_items_per_case": (st.items_total as f64) / (st.n.max(1) as f64),
         },
     });
